@@ -195,6 +195,105 @@ impl Crdt for MR {
     fn eq(a: &Self::S, b: &Self::S) -> Option<bool> {
         Some(a == b)
     }
+    /// C19: serde_json round trip.  The text is shown MODULO HASH NAMES (the Lean model has abstract hashes): every
+    /// 32-byte hash array is replaced by `"#<node name>"`, a node's value `[u8; 8]` by `[<u64>,"#<name of the node>"]`
+    /// (the model's value carries the node's name), and the sequences ordered by real hash (`roots`, `children`,
+    /// `dag`, `orphans`) are re-ordered by name.  Field names, field order, nesting and the pair-list shape of
+    /// `btreemap_as_vec` are compared as they are.  The value is read back from the original text.
+    fn persist(s: &Self::S) -> Option<(Result<String, String>, Option<Self::S>)> {
+        Some(match serde_json::to_string(s) {
+            Err(e) => (Err(e.to_string()), None),
+            Ok(text) => {
+                let back = serde_json::from_str(&text).ok();
+                (Ok(canon_reg(&text).unwrap_or_else(|| format!("CANON-MERKLE:{text}"))), back)
+            }
+        })
+    }
+    fn persist_op(op: &Self::Op) -> Option<(Result<String, String>, Option<Self::Op>)> {
+        Some(match serde_json::to_string(op) {
+            Err(e) => (Err(e.to_string()), None),
+            Ok(text) => {
+                let back = serde_json::from_str(&text).ok();
+                let shown = crate::jcanon::parse(&text).and_then(|j| canon_node(&j)).map(|j| crate::jcanon::to_text(&j));
+                (Ok(shown.unwrap_or_else(|| format!("CANON-MERKLE:{text}"))), back)
+            }
+        })
+    }
+}
+
+use crate::jcanon::J;
+
+fn j_bytes(j: &J, n: usize) -> Option<Vec<u8>> {
+    match j {
+        J::Arr(v) if v.len() == n => v.iter().map(|x| match x { J::Atom(a) => a.parse::<u8>().ok(), _ => None }).collect(),
+        _ => None,
+    }
+}
+fn canon_hash(j: &J) -> Option<J> {
+    let b = j_bytes(j, 32)?;
+    let mut h = [0u8; 32];
+    h.copy_from_slice(&b);
+    Some(J::Str(format!("#{}", name_of(&h))))
+}
+fn canon_hash_set(j: &J) -> Option<J> {
+    match j {
+        J::Arr(v) => {
+            let mut names: Vec<J> = v.iter().map(canon_hash).collect::<Option<_>>()?;
+            names.sort_by(|a, b| crate::jcanon::to_text(a).cmp(&crate::jcanon::to_text(b)));
+            Some(J::Arr(names))
+        }
+        _ => None,
+    }
+}
+fn canon_node(j: &J) -> Option<J> {
+    // the node's own name: deserialise the subtree with the crate's own impl and hash it
+    let node: Node<V> = serde_json::from_str(&crate::jcanon::to_text(j)).ok()?;
+    let own = J::Str(format!("#{}", name_of(&node.hash())));
+    match j {
+        J::Obj(fs) if fs.len() == 2 && fs[0].0 == "children" && fs[1].0 == "value" => {
+            let b = j_bytes(&fs[1].1, 8)?;
+            let mut v = [0u8; 8];
+            v.copy_from_slice(&b);
+            Some(J::Obj(vec![
+                ("children".into(), canon_hash_set(&fs[0].1)?),
+                ("value".into(), J::Arr(vec![J::Atom(val(&v).to_string()), own])),
+            ]))
+        }
+        _ => None,
+    }
+}
+fn canon_node_map(j: &J) -> Option<J> {
+    match j {
+        J::Arr(v) => {
+            let mut pairs: Vec<(String, J)> = vec![];
+            for p in v {
+                match p {
+                    J::Arr(kv) if kv.len() == 2 => {
+                        let k = canon_hash(&kv[0])?;
+                        pairs.push((crate::jcanon::to_text(&k), J::Arr(vec![k, canon_node(&kv[1])?])));
+                    }
+                    _ => return None,
+                }
+            }
+            pairs.sort_by(|a, b| a.0.cmp(&b.0));
+            Some(J::Arr(pairs.into_iter().map(|(_, p)| p).collect()))
+        }
+        _ => None,
+    }
+}
+fn canon_reg(text: &str) -> Option<String> {
+    let j = crate::jcanon::parse(text)?;
+    if crate::jcanon::to_text(&j) != text {
+        return None;
+    }
+    match &j {
+        J::Obj(fs) if fs.len() == 3 && fs[0].0 == "roots" && fs[1].0 == "dag" && fs[2].0 == "orphans" => Some(crate::jcanon::to_text(&J::Obj(vec![
+            ("roots".into(), canon_hash_set(&fs[0].1)?),
+            ("dag".into(), canon_node_map(&fs[1].1)?),
+            ("orphans".into(), canon_node_map(&fs[2].1)?),
+        ]))),
+        _ => None,
+    }
 }
 
 /// Witness runner (not part of the correspondence): `harness merkle_chain <n> [stack_kb]`.
